@@ -440,6 +440,8 @@ func namedLeaves() []*gen.Leaf {
 	out = append(out, gen.LeafByName("*int"), gen.LeafByName("*string"), gen.LeafByName("*TU"))
 	// durations (substituted by the file decoders) alone and in fixed-size arrays, and a plain array
 	out = append(out, gen.LeafByName("duration"), gen.LeafByName("[2]duration"), gen.LeafByName("[3]int"))
+	// lists of structs: plain, with an unexported field, embedding another struct, holding a time.Time by value
+	out = append(out, gen.LeafByName("[]Elem"), gen.LeafByName("[]ElemHidden"), gen.LeafByName("[]ElemEmb"), gen.LeafByName("[]ElemT"))
 	// and every builtin-typed leaf the flag sources support (each has its own registration branch)
 	seen := map[*gen.Leaf]bool{}
 	for _, l := range out {
